@@ -521,8 +521,8 @@ Section LoadProofs.
     { unfold kp. destruct kp1 as [ty|]; [cbn; apply T1; auto | exact SK]. }
     destruct (up_feature_inside t "descriptors" true kp dt) as [I2 _]; [unfold kind3; cbn; tauto | exact WF | exact SD |].
     destruct (up_feature L true t "descriptors" true kp dt) as [x2 r2]. cbn [fst snd] in *.
-    destruct (up_feature_inside t "global_features" true kp gt) as [I3 _]; [unfold kind3; cbn; tauto | exact WF | exact SG |].
-    destruct (up_feature L true t "global_features" true kp gt) as [x3 r3]. cbn [fst snd] in *.
+    destruct (up_feature_inside t "global_features" false kp gt) as [I3 _]; [unfold kind3; cbn; tauto | exact WF | exact SG |].
+    destruct (up_feature L true t "global_features" false kp gt) as [x3 r3]. cbn [fst snd] in *.
     apply (then_inside (None, es0)); [exact H0|].
     apply then_inside; [exact I1|]. apply then_inside; [exact I2|].
     apply then_inside; [apply up_matches_inside; assumption|].
